@@ -449,9 +449,11 @@ def compare_model(res, case, r, k, real, mo):
         return
     if job['kind'] == 'te' and 'eps_error' in plain['meas']:
         eps = plain['meas']['eps_error']
-        # error of step i = eps[i+1] - eps[i] in the plain run (first measurement is the initial one)
-        off = 1 if r['measure_initial'] else 0
-        e = [eps[i + off] - (eps[i + off - 1] if i + off - 1 >= 0 else 0.0) for i in range(job['n'])]
+        # accumulated error after t steps = eps of any plain measurement with tag t (0 before the first step)
+        E = {0: 0.0}
+        for t, x in zip(tags(plain), eps):
+            E[t] = x
+        e = [E.get(i + 1, 0.0) - E.get(i, 0.0) for i in range(job['n'])]
         want = [sum(e[i] for i in range(job['n']) if (m[3] >> i) & 1) for m in mr['meas']]
         got = real['meas'].get('eps_error', [])
         if not _close(got, want):
@@ -602,11 +604,14 @@ def extra_jobs(ctx, rng):
         ['harness.c18_meas', 'm_steps', {}, -5],
         ['tenpy.simulations.measurement', 'm_evolved_time', {}, 3],
         ['psi_method', 'wrap entanglement_entropy', {'results_key': 'c18_S'}],
-        ['tenpy.simulations.measurement', 'wrap m_bond_dimension'.split()[1] if False else 'm_bond_dimension', {'results_key': 'c18_chi'}],
+        ['tenpy.simulations.measurement', 'm_bond_dimension', {'results_key': 'c18_chi'}],
         ['simulation_method', 'wrap walltime'],
         ['simulation_method', 'wrap eps_error', {'results_key': 'eps_error'}, -1],
         ['harness.c18_meas', 'm_flaky_key', {'every': 2}, -10],
+        ['harness.c18_meas', 'm_flaky_key', {'every': 3, 'offset': 1, 'results_key': 'c18_late'}, -11],
+        ['harness.c18_meas', 'm_returns'],
     ]
+    j['params']['random_seed'] = rng.randrange(1, 1000)
     jobs.append(j)
 
     def gs(variant, **kw):
@@ -617,6 +622,10 @@ def extra_jobs(ctx, rng):
         return j
 
     jobs.append(gs('gs:no-checkpoint-measurements', measure_at_algorithm_checkpoints=False))
+    # neither an initial nor a checkpoint measurement: the checkpoint file has no 'measurements' entry at all
+    jobs.append(gs('gs:no-measurements-key-in-checkpoint', measure_at_algorithm_checkpoints=False, measure_initial=False))
+    # environments cached on disk (cache_threshold_chi below chi_max)
+    jobs.append(gs('gs:disk-cache', cache_threshold_chi=1, cache_params=dict(storage_class='PickleStorage', delete=True)))
     jobs.append(gs('gs:measure_initial=False', measure_initial=False))
     jobs.append(gs('gs:save_stats=False,save_psi=False,save_resume_data=True,post_processing',
                    save_stats=False, save_psi=False, save_resume_data=True,
